@@ -251,9 +251,13 @@ struct Plan {
     fault: Option<Fault>,
     /// probe suffix appended (prepare_for_tx, tx, prepare_for_rx, rx) to make bad state observable
     suffix: bool,
+    /// per call of the fault-free run of the same plan: did it fail (chip outcome alone)?
+    baseline_failed: Vec<bool>,
 }
 
 struct RunOut {
+    /// per executed call: did it return an error / panic
+    failed: Vec<bool>,
     n_spi: u32,
     n_busy: u32,
     n_irq: u32,
@@ -284,6 +288,8 @@ struct Driver<'a, RK: RadioKind, C: Probe> {
     /// an explicit init() has failed and no later init() has succeeded: the history class that
     /// goes into the signatures of clauses (b) and (c)
     failed_init: bool,
+    baseline_failed: Vec<bool>,
+    failed: Vec<bool>,
 }
 
 fn err_variant(e: &RadioError) -> String {
@@ -364,6 +370,7 @@ impl<'a, RK: RadioKind, C: Probe> Driver<'a, RK, C> {
         if call == Call::Init {
             self.failed_init = !matches!(res, Res::Ok);
         }
+        self.failed.push(res.failed());
         let tainted = self.failed_init && call != Call::Init;
         let fam = self.var.family();
         let mk_detail = |extra: Value| -> Value {
@@ -467,10 +474,13 @@ impl<'a, RK: RadioKind, C: Probe> Driver<'a, RK, C> {
                 let last_start = sh.chip.op_starts()[o0..].last().map(|o| o.txn + 1).unwrap_or(t0);
                 let from = sh.fault_hit.filter(|_| fault_now).unwrap_or(t0).max(t0).max(last_start);
                 let attempted = sh.chip.transcript()[from.min(t1)..t1].iter().any(|x| is_standby_cmd(self.var, &x.mosi));
-                let cause = match &res {
-                    Res::Panic(_, _, k) => format!("panic:{}", k),
-                    _ if attempted => "standby-attempted".to_string(),
-                    _ => "no-standby-attempt".to_string(),
+                // where the failure came from: the phase the injected fault fell in, or the chip outcome
+                let started_before_fault = matches!(chip_before, Mode::Tx | Mode::Rx | Mode::Cad) || sh.chip.op_starts()[o0..].iter().any(|o| Some(o.txn) < sh.fault_hit || !fault_now);
+                let cause = match (&res, fault_kind) {
+                    (Res::Panic(_, _, k), _) => format!("panic:{}", k),
+                    (_, Some(k)) => format!("fault-in:{}{}", fault_phase(self.var, k, &sh.fault_mosi, started_before_fault), if attempted { "|standby-attempted" } else { "" }),
+                    (Res::Err(e), None) => format!("chip:{}->{}{}", profile.class(), e.split('(').next().unwrap_or(""), if attempted { "|standby-attempted" } else { "" }),
+                    _ => String::new(),
                 };
                 let origin = match (&res, fault_kind) {
                     (Res::Err(_), Some(k)) => format!("{:?} fault", k),
@@ -480,8 +490,16 @@ impl<'a, RK: RadioKind, C: Probe> Driver<'a, RK, C> {
                 // a single fault that hits the driver's own attempt to force standby: the bus
                 // failed in the recovery itself, nothing can be demanded
                 let fault_in_recovery = fault_now
-                    && fault_kind == Some(FaultKind::Spi)
-                    && sh.fault_hit.map(|i| sh.chip.transcript().get(i).map(|x| is_standby_cmd(self.var, &x.mosi)).unwrap_or(false)).unwrap_or(false);
+                    && (
+                        // the forced-standby command itself was lost, or the BUSY wait right after it failed
+                        (fault_kind != Some(FaultKind::Irq) && is_standby_cmd(self.var, &sh.fault_mosi))
+                        // the operation fails on the chip's outcome alone (fault-free run of the same
+                        // plan): the fault fell into the handling of an already failed operation
+                        || self.baseline_failed.get(j).copied().unwrap_or(false)
+                        // the call failed before it delivered a single transaction: the chip is in
+                        // whatever mode it legitimately was in before the call
+                        || sh.fault_hit == Some(t0)
+                    );
                 // the strict "driver says Standby" half is judged for the calls the statement's
                 // anchors name (tx, rx/complete_rx, cad); for calls that only start an operation
                 // the driver's mode legitimately keeps denoting the prepared receive
@@ -537,6 +555,45 @@ impl<'a, RK: RadioKind, C: Probe> Driver<'a, RK, C> {
     }
 }
 
+/// the commands with which the driver reads / clears interrupt flags (incl. the SX126x
+/// implicit-header workaround that is part of its IRQ processing)
+fn is_irq_cmd(var: Var, mosi: &[u8]) -> bool {
+    use crate::chip126x as c;
+    if var.is_126x() {
+        match mosi.first() {
+            Some(&c::GET_IRQ_STATUS) | Some(&c::CLEAR_IRQ_STATUS) => true,
+            Some(&c::WRITE_REGISTER) | Some(&c::READ_REGISTER) => mosi.len() >= 3 && mosi[1] == 0x09 && (mosi[2] == 0x02 || mosi[2] == 0x44),
+            _ => false,
+        }
+    } else {
+        mosi.first().map(|b| b & 0x7F == crate::chip127x::REG_IRQ_FLAGS).unwrap_or(false)
+    }
+}
+
+fn is_start_cmd(var: Var, mosi: &[u8]) -> bool {
+    use crate::chip126x as c;
+    if var.is_126x() {
+        matches!(mosi.first(), Some(&c::SET_TX) | Some(&c::SET_RX) | Some(&c::SET_RX_DUTY_CYCLE) | Some(&c::SET_CAD))
+    } else {
+        mosi.len() >= 2 && mosi[0] == (crate::chip127x::REG_OP_MODE | 0x80) && matches!(mosi[1] & 7, 3 | 5 | 6 | 7)
+    }
+}
+
+/// Phase of the failed call in which the injected fault fell.
+fn fault_phase(var: Var, kind: FaultKind, mosi: &[u8], started_before_fault: bool) -> &'static str {
+    if kind == FaultKind::Irq {
+        "irq-wait"
+    } else if is_standby_cmd(var, mosi) {
+        "forced-standby"
+    } else if is_start_cmd(var, mosi) || !started_before_fault {
+        "start"
+    } else if is_irq_cmd(var, mosi) {
+        "irq-processing"
+    } else {
+        "fetch"
+    }
+}
+
 fn is_standby_cmd(var: Var, mosi: &[u8]) -> bool {
     if var.is_126x() {
         mosi.first() == Some(&crate::chip126x::SET_STANDBY)
@@ -580,7 +637,7 @@ impl<'a> Visitor for RunPlan<'a> {
             sh.arm(plan.fault);
         }
         let losses_base = bus.borrow().chip.losses();
-        let mut d = Driver { var, lora, bus: bus.clone(), mdl, tx_pkt, rx_pkt, rxbuf: [0; 255], col, found: vec![], log: vec![], losses_base, failed_init: false };
+        let mut d = Driver { var, lora, bus: bus.clone(), mdl, tx_pkt, rx_pkt, rxbuf: [0; 255], col, found: vec![], log: vec![], losses_base, failed_init: false, baseline_failed: plan.baseline_failed.clone(), failed: vec![] };
         let plan_json = || {
             json!({
                 "chip": plan.var.name(),
@@ -616,7 +673,7 @@ impl<'a> Visitor for RunPlan<'a> {
         let found = std::mem::take(&mut d.found);
         let out = {
             let sh = d.bus.borrow();
-            RunOut { n_spi: sh.n_spi, n_busy: sh.n_busy, n_irq: sh.n_irq, fault_call, fault_cmd: sh.last_cmd }
+            RunOut { failed: d.failed.clone(), n_spi: sh.n_spi, n_busy: sh.n_busy, n_irq: sh.n_irq, fault_call, fault_cmd: sh.last_cmd }
         };
         let col = d.col;
         for f in found {
@@ -664,6 +721,7 @@ fn run_with_all_faults(base: &Plan, col: &mut Collector, stride: u32) {
         while at <= *n {
             let mut p = base.clone();
             p.fault = Some(Fault { kind: *kind, at });
+            p.baseline_failed = k.failed.clone();
             if let Some(o) = run_plain(&p, col) {
                 col.event(match kind {
                     FaultKind::Spi => "spi_faults_injected",
@@ -752,6 +810,7 @@ struct WanPlan {
     steps: Vec<Wan>,
     ovar: u64,
     fault: Option<Fault>,
+    baseline_failed: Vec<bool>,
 }
 
 struct RunWan<'a> {
@@ -785,6 +844,7 @@ impl<'a> Visitor for RunWan<'a> {
         let mut log: Vec<String> = vec![];
         let mut buf = [0u8; 255];
         let mut fault_call = None;
+        let mut failed_steps = vec![false; plan.steps.len()];
         let mut last_setup_continuous = false;
         // async_device aborts the current procedure on any radio error (`?`); the application's
         // next action is another uplink, so the flow resumes at the next tx step
@@ -797,12 +857,12 @@ impl<'a> Visitor for RunWan<'a> {
                 skip_to_tx = false;
             }
             let profile = PROFILES[((plan.ovar + j as u64) % NP) as usize];
-            let (t0, a0, o0) = {
+            let (t0, a0, o0, chip_before) = {
                 let mut sh = bus.borrow_mut();
                 let evs = if matches!(st, Wan::RxContinuousCut(_)) { vec![] } else { profile.events(var.is_126x(), last_setup_continuous) };
                 sh.chip.set_default_outcome(evs);
                 sh.chip.set_next_packet(Some(vec![0x60, 9, 8, 7, 6, 5, 4, 3]));
-                (sh.chip.transcript().len(), sh.chip.alarms().len(), sh.chip.op_starts().len())
+                (sh.chip.transcript().len(), sh.chip.alarms().len(), sh.chip.op_starts().len(), sh.chip.mode())
             };
             let fault_before = bus.borrow().fault_hit.is_some();
             let budget = exec::POLL_BUDGET;
@@ -886,20 +946,23 @@ impl<'a> Visitor for RunWan<'a> {
             }
             // (d): only the chip side is observable through the adapter
             let failed = matches!(&r, Err(_) | Ok(Ok(Some(Err(_))))) || matches!(&r, Ok(Ok(Some(Ok("RxTimeout")))));
+            failed_steps[j] = failed;
             if failed && matches!(st, Wan::Tx | Wan::RxSingle) {
                 col.event("failed_operations");
                 if !chip_mode.is_standby() {
                     let last_start = sh.chip.op_starts()[o0..].last().map(|o| o.txn + 1).unwrap_or(t0);
                     let from = sh.fault_hit.filter(|_| fault_now).unwrap_or(t0).max(t0).max(last_start);
                     let attempted = sh.chip.transcript()[from.min(t1)..t1].iter().any(|x| is_standby_cmd(var, &x.mosi));
-                    let cause = match &r {
-                        Err(t) => format!("panic:{}|{}", t.file(), t.kind()),
-                        _ if attempted => "standby-attempted".to_string(),
-                        _ => "no-standby-attempt".to_string(),
+                    let started_before_fault = matches!(chip_before, Mode::Tx | Mode::Rx | Mode::Cad) || sh.chip.op_starts()[o0..].iter().any(|o| Some(o.txn) < sh.fault_hit || !fault_now);
+                    let cause = match (&r, fault_now) {
+                        (Err(t), _) => format!("panic:{}|{}", t.file(), t.kind()),
+                        (_, true) => format!("fault-in:{}{}", fault_phase(var, plan.fault.map(|f| f.kind).unwrap_or(FaultKind::Spi), &sh.fault_mosi, started_before_fault), if attempted { "|standby-attempted" } else { "" }),
+                        _ => format!("chip:{}{}", profile.class(), if attempted { "|standby-attempted" } else { "" }),
                     };
                     let fault_in_recovery = fault_now
-                        && plan.fault.map(|f| f.kind) == Some(FaultKind::Spi)
-                        && sh.fault_hit.map(|i| sh.chip.transcript().get(i).map(|x| is_standby_cmd(var, &x.mosi)).unwrap_or(false)).unwrap_or(false);
+                        && ((plan.fault.map(|f| f.kind) != Some(FaultKind::Irq) && is_standby_cmd(var, &sh.fault_mosi))
+                            || plan.baseline_failed.get(j).copied().unwrap_or(false)
+                            || sh.fault_hit == Some(t0));
                     if fault_in_recovery {
                         col.event("failed_operations_fault_hit_the_forced_standby(exempt)");
                     } else {
@@ -948,7 +1011,7 @@ impl<'a> Visitor for RunWan<'a> {
             }
         }
         let sh = bus.borrow();
-        Some(RunOut { n_spi: sh.n_spi, n_busy: sh.n_busy, n_irq: sh.n_irq, fault_call, fault_cmd: sh.last_cmd })
+        Some(RunOut { failed: failed_steps, n_spi: sh.n_spi, n_busy: sh.n_busy, n_irq: sh.n_irq, fault_call, fault_cmd: sh.last_cmd })
     }
 }
 
@@ -968,7 +1031,7 @@ fn run_wan_with_all_faults(base: &WanPlan, col: &mut Collector) {
     let kinds: &[(FaultKind, u32)] = &[(FaultKind::Spi, k.n_spi), (FaultKind::Busy, if base.var.is_126x() { k.n_busy } else { 0 }), (FaultKind::Irq, k.n_irq)];
     for (kind, n) in kinds {
         for at in 1..=*n {
-            let p = WanPlan { var: base.var, steps: base.steps.clone(), ovar: base.ovar, fault: Some(Fault { kind: *kind, at }) };
+            let p = WanPlan { var: base.var, steps: base.steps.clone(), ovar: base.ovar, fault: Some(Fault { kind: *kind, at }), baseline_failed: k.failed.clone() };
             if run_wan(&p, col).is_some() {
                 col.event(match kind {
                     FaultKind::Spi => "spi_faults_injected",
@@ -1054,7 +1117,7 @@ impl Monitor for C14 {
             if unsupported(var, &calls) {
                 return;
             }
-            let plan = Plan { var, calls, ovar, fault: None, suffix: true };
+            let plan = Plan { var, calls, ovar, fault: None, suffix: true, baseline_failed: vec![] };
             run_plain(&plan, col);
             return;
         }
@@ -1067,7 +1130,7 @@ impl Monitor for C14 {
             if unsupported(var, &calls) {
                 return;
             }
-            let plan = Plan { var, calls, ovar, fault: None, suffix: true };
+            let plan = Plan { var, calls, ovar, fault: None, suffix: true, baseline_failed: vec![] };
             run_with_all_faults(&plan, col, if col.tier == Tier::Sanitizer { 5 } else { 1 });
             return;
         }
@@ -1082,14 +1145,14 @@ impl Monitor for C14 {
                 let mut calls: Vec<Call> = pre.to_vec();
                 calls.push(Call::WaitIrqCut(k));
                 calls.extend_from_slice(post);
-                let plan = Plan { var, calls, ovar, fault: None, suffix: true };
+                let plan = Plan { var, calls, ovar, fault: None, suffix: true, baseline_failed: vec![] };
                 run_plain(&plan, col);
             }
             "wan-fault" => {
                 let var = VARS[(idx % 4) as usize];
                 let ovar = (idx / 4) % NP;
                 let steps = if (idx / (4 * NP)) % 2 == 0 { FLOW_A.to_vec() } else { flow_c([40, 40, 40]) };
-                run_wan_with_all_faults(&WanPlan { var, steps, ovar, fault: None }, col);
+                run_wan_with_all_faults(&WanPlan { var, steps, ovar, fault: None, baseline_failed: vec![] }, col);
             }
             "wan-drop" => {
                 let var = VARS[(idx % 4) as usize];
@@ -1099,7 +1162,7 @@ impl Monitor for C14 {
                 for which in 0..3 {
                     let mut cuts = [60u32, 60, 60];
                     cuts[which] = k;
-                    run_wan(&WanPlan { var, steps: flow_c(cuts), ovar, fault: None }, col);
+                    run_wan(&WanPlan { var, steps: flow_c(cuts), ovar, fault: None, baseline_failed: vec![] }, col);
                 }
             }
             _ => unreachable!(),
